@@ -209,7 +209,7 @@ func runDoc(ctx *fw.Ctx, i int, dc *docCase) fw.Result {
 		return res
 	}
 	if err != nil {
-		res.Violate(dc.format+"|import-error|"+clip(fw.MsgClass(lastLine(err.Error())), 60)+"|"+riskyTag(dc.risky), dc.format+": import of a well-formed document of the supported subset failed: "+clip(err.Error(), 600), files)
+		res.Violate(dc.format+"|import-error|"+cut(fw.MsgClass(lastLine(err.Error())), 60)+"|"+riskyTag(dc.risky), dc.format+": import of a well-formed document of the supported subset failed: "+clip(err.Error(), 600), files)
 		return res
 	}
 	files["output.sysl"] = out1
@@ -330,6 +330,13 @@ func head(s string, n int) string {
 func clip(s string, n int) string {
 	if len(s) > n {
 		return s[:n] + "..."
+	}
+	return s
+}
+
+func cut(s string, n int) string {
+	if len(s) > n {
+		return s[:n]
 	}
 	return s
 }
